@@ -13,7 +13,7 @@ from hypothesis import strategies as st
 
 CELL_POOL = ['', 'a', 'b', 'ab', 'a b', 'B', '10', '9', '100', 'x,y', ' a', 'a!', 'k', 'zz', 'A;B', 'q"r', "it's", 'é', 'a%', '_']
 JS_SAFE_CELL_POOL = ['', 'a', 'b', 'ab', 'a b', 'B', '10', '9', '100', 'x,y', ' a', 'a!', 'k', 'zz', 'A;B', 'q"r', "it's", 'a%', '_']
-NAME_POOL = ['k', 'v', 'name', 'x1', '_id', 'Col', 'zz', 'w', 'val', 'key_2', 'Total', 'n', 'a_1', 'k2', 'v10', 'name2']
+NAME_POOL = ['k', 'v', 'name', 'x1', '_id', 'Col', 'zz', 'w', 'val', 'key_2', 'Total', 'n', 'a_1', 'k2', 'v10', 'name2', 'col2', 'col1', 'col3']
 LIT_POOL = ['', 'a', 'b', 'x', 'a b', ',', ';', 'zz', '10', '-', 'A', '%', 'a%', '_', '(', ')', '[x]', '#', 'é', '$$', '$&', 'p$$q', '$1', '{}', '%s', 'a\tb', '\t', 'a  b', ' a ', '\x0b', 'a\xa0b']
 ALIAS_POOL = ['x', 'y', 'res', 'Total', 'c_1', 'zed', 'alias9']
 
@@ -182,6 +182,9 @@ def _e_str(ctx, depth, k):
     if k == 6:
         return both('str({})', 'String({})', 'str', e_int(ctx, depth + 1))
     if k == 7:
+        if d(st.integers(0, 2)) == 1:
+            # a method whose name is an RBQL keyword (join): part of the expression, not a clause
+            return both("'-'.join([{}, {}])", "[{}, {}].join('-')", 'str', sfield(ctx), sfield(ctx))
         n = d(st.integers(0, 2))
         return both('{}[%d:]' % n, '{}.slice(%d)' % n, 'str', sfield(ctx))
     if k == 8:
@@ -776,6 +779,11 @@ def st_case_update(draw, js=False, join_p=4, multi_match=False):
         q['where'] = e_truthy(ctx)
     if join is not None and bw > 0 and draw(st.integers(0, 2)) == 0:
         q['where'] = e_strict_b(ctx)
+    elif join is not None and bw > 0 and draw(st.integers(0, 3)) == 1:
+        # a top-level `or` (no outer parentheses): the condition is one unit, whatever surrounds it in the generated code
+        pyw, jsw = draw(st.sampled_from([("b1 == 'a' or NR > 1", "b1 == 'a' || NR > 1"), ("b1 == 'zz' or a1 == a1", "b1 == 'zz' || a1 == a1"), ("NR % 2 == 0 or b1 == 'b'", "NR % 2 == 0 || b1 == 'b'")]
+                                             + ([("b1 if False else NR > 0", None)] if not js else [])))
+        q['where'] = mk(pyw, jsw, 'bool')
     return {'A': A, 'B': B, 'a_names': a_names, 'b_names': b_names, 'q': q}
 
 
